@@ -706,7 +706,7 @@ func ChangeLabelIndex(d dvid.Data, v dvid.VersionID, label uint64, delta labels.
 		idx.Label = label
 	}
 
-	if err := idx.ModifyBlocks(label, delta); err != nil {
+	if err := idx.ApplyChanges(delta); err != nil {
 		return err
 	}
 
@@ -931,7 +931,6 @@ type blockChange struct {
 // mutex-guarded label index mutation routine.
 func (d *Data) aggregateBlockChanges(v dvid.VersionID, svmap *VCache, ch <-chan blockChange) {
 	mappedVersions := svmap.getMappedVersionsDist(v)
-	labelset := make(labels.Set)
 	svChanges := make(labels.SupervoxelChanges)
 	var maxLabel uint64
 	for change := range ch {
@@ -945,9 +944,19 @@ func (d *Data) aggregateBlockChanges(v dvid.VersionID, svmap *VCache, ch <-chan 
 			if supervoxel > maxLabel {
 				maxLabel = supervoxel
 			}
-			label, _ := svmap.mapLabel(supervoxel, mappedVersions)
-			labelset[label] = struct{}{}
 		}
+	}
+	// each label's index receives the changes of the supervoxels currently mapped to that label,
+	// whether or not the index already lists them
+	labelChanges := make(map[uint64]labels.SupervoxelChanges)
+	for supervoxel, blockChanges := range svChanges {
+		label, _ := svmap.mapLabel(supervoxel, mappedVersions)
+		lc, found := labelChanges[label]
+		if !found {
+			lc = make(labels.SupervoxelChanges)
+			labelChanges[label] = lc
+		}
+		lc[supervoxel] = blockChanges
 	}
 	go func() {
 		if _, err := d.updateMaxLabel(v, maxLabel); err != nil {
@@ -955,8 +964,8 @@ func (d *Data) aggregateBlockChanges(v dvid.VersionID, svmap *VCache, ch <-chan 
 		}
 	}()
 	if d.IndexedLabels {
-		for label := range labelset {
-			if err := ChangeLabelIndex(d, v, label, svChanges); err != nil {
+		for label, lc := range labelChanges {
+			if err := ChangeLabelIndex(d, v, label, lc); err != nil {
 				dvid.Errorf("indexing label %d: %v\n", label, err)
 			}
 		}
